@@ -241,16 +241,142 @@ example : (validateBlock blockOk).verdict = .ACCEPT ∧ (validateBlock blockOk).
 example : (validateBlock { blockOk with proposer := 39 }).verdict = .REJECT ∧
     (validateBlock { blockOk with proposer := 39 }).marks = [] := by decide
 
-/-! ### beacon_attestation_{subnet_id} -/
+/-! ### beacon_attestation_{subnet_id}
 
-/-- assumptions on the answer record:
-* `spe`   `SLOTS_PER_EPOCH ≠ 0`
-* `ckpt`  chain-view consistency: if the target is the checkpoint block of the vote, it is an ancestor of it
-* `bits`  SSZ: every set bit of a bitlist lies below its length
-* `cps`   `committees_per_slot * SLOTS_PER_EPOCH + index` fits 64 bits (`committees_per_slot ≤ 64`) -/
-structure WFAtt (i : AttIn) : Prop where
+Both fork variants of the specification (`.phase0`: 32-slot propagation range; `.deneb`: EIP-7045) are covered by the
+same theorems: the code selects the rule by `DENEB_FORK_EPOCH` (repair `a3eed3e`), `WFAtt.forkOk` ties the node's fork
+epoch to the `fork` of the specification. The target is checked to be the *checkpoint block* of its epoch on the
+chain of the vote by walking parent links (repair `bd7a82d`). -/
+
+theorem prevEpoch_beq (e c : UInt64) : (c != 0 && e == c - 1) = decide (e.toNat + 1 = c.toNat) := by
+  by_cases hc : c = 0
+  · subst hc
+    have : ¬ (e.toNat + 1 = (0 : UInt64).toNat) := by simp
+    simp [this]
+  · have hpos := toNat_pos_of_ne_zero c hc
+    have h1 : (1 : UInt64).toNat = 1 := by decide
+    have hsub : (c - 1).toNat = c.toNat - 1 := by
+      rw [UInt64.toNat_sub_of_le]; · rw [h1]
+      · exact UInt64.le_iff_toNat_le.mpr (by rw [h1]; omega)
+    rw [beq_toNat, hsub]
+    have hne : (c != 0) = true := by simpa using hc
+    rw [hne, Bool.true_and]
+    by_cases h : e.toNat + 1 = c.toNat
+    · have h2 : e.toNat = c.toNat - 1 := by omega
+      have : (e.toNat == c.toNat - 1) = true := by simpa using h2
+      rw [this]; simp [h]
+    · have h2 : ¬ (e.toNat = c.toNat - 1) := by omega
+      have : (e.toNat == c.toNat - 1) = false := by simpa using h2
+      rw [this]; simp [h]
+
+theorem checkpointWalk_eq (T : UInt64) (fuel : Nat) (root slot : UInt64) (ancs : List (UInt64 × UInt64))
+    (hf : (((root, slot) :: ancs).takeWhile (fun e => decide (e.2.toNat > T.toNat))).length ≤ fuel) :
+    checkpointWalk T fuel root slot ancs = Spec.checkpointOf T.toNat ((root, slot) :: ancs) := by
+  induction ancs generalizing root slot fuel with
+  | nil =>
+    unfold checkpointWalk Spec.checkpointOf
+    by_cases h : slot > T
+    · have h' : ¬ (slot.toNat ≤ T.toNat) := by have := UInt64.lt_iff_toNat_lt.mp h; omega
+      cases fuel <;> simp [h, h']
+    · have h' : slot.toNat ≤ T.toNat := by
+        have : ¬ T.toNat < slot.toNat := fun hh => h (UInt64.lt_iff_toNat_lt.mpr hh); omega
+      simp [h, h']
+  | cons a rest ih =>
+    obtain ⟨r, s⟩ := a
+    unfold checkpointWalk
+    by_cases h : slot > T
+    · have hgt := UInt64.lt_iff_toNat_lt.mp h
+      have h' : ¬ (slot.toNat ≤ T.toNat) := by omega
+      rw [List.takeWhile_cons] at hf
+      simp only [gt_iff_lt, hgt, decide_true, if_true, List.length_cons] at hf
+      cases fuel with
+      | zero => omega
+      | succ f =>
+        have := ih f r s (Nat.le_of_succ_le_succ hf)
+        simp only [h, decide_true, Bool.not_true, Bool.false_eq_true, if_false]
+        rw [this]
+        unfold Spec.checkpointOf
+        simp [h']
+    · have h' : slot.toNat ≤ T.toNat := by
+        have : ¬ T.toNat < slot.toNat := fun hh => h (UInt64.lt_iff_toNat_lt.mpr hh); omega
+      unfold Spec.checkpointOf
+      simp [h, h']
+
+theorem attSlotOk_eq_spec (fork : Spec.Fork) (spe d mn mx slot : UInt64)
+    (hfork : fork = .deneb ↔ d.toNat ≤ mx.toNat / spe.toNat) :
+    attSlotOk spe d mn mx slot = Spec.attWindow fork spe.toNat slot.toNat mn.toNat mx.toNat := by
+  unfold attSlotOk
+  have hlt : (epochOf spe mx < d) ↔ ¬ (d.toNat ≤ mx.toNat / spe.toNat) := by
+    unfold epochOf; rw [UInt64.lt_iff_toNat_lt, UInt64.toNat_div]; omega
+  cases fork with
+  | phase0 =>
+    have hn : ¬ (d.toNat ≤ mx.toNat / spe.toNat) := fun h => by have := hfork.mpr h; cases this
+    have hd : epochOf spe mx < d := hlt.mpr hn
+    have h32 : ATTESTATION_PROPAGATION_SLOT_RANGE.toNat = 32 := by decide
+    have hw := slotSpanOk_iff mn mx slot ATTESTATION_PROPAGATION_SLOT_RANGE
+    rw [h32] at hw
+    simp only [hd, if_true, Spec.attWindow]
+    by_cases h : slotSpanOk mn mx slot ATTESTATION_PROPAGATION_SLOT_RANGE = true
+    · have := hw.mp h
+      simp [h, this]
+    · have hn2 := fun hh => h (hw.mpr hh)
+      have hf : slotSpanOk mn mx slot ATTESTATION_PROPAGATION_SLOT_RANGE = false := by simpa using h
+      rw [hf]; symm; simp only [decide_eq_false_iff_not]; intro hh; exact hn2 ⟨hh.2.2, hh.1, hh.2.1⟩
+  | deneb =>
+    have hy : d.toNat ≤ mx.toNat / spe.toNat := hfork.mp rfl
+    have hd : ¬ (epochOf spe mx < d) := fun h => (hlt.mp h) hy
+    simp only [hd, if_false, Spec.attWindow, Spec.epochAt]
+    have e1 : ∀ a b : UInt64, (epochOf spe a == epochOf spe b) = decide (a.toNat / spe.toNat = b.toNat / spe.toNat) := by
+      intro a b; rw [beq_toNat]; unfold epochOf; rw [UInt64.toNat_div, UInt64.toNat_div]
+      by_cases h : a.toNat / spe.toNat = b.toNat / spe.toNat <;> simp [h]
+    have e2 : ∀ a b : UInt64, (epochOf spe b != 0 && epochOf spe a == epochOf spe b - 1) =
+        decide (a.toNat / spe.toNat + 1 = b.toNat / spe.toNat) := by
+      intro a b; rw [prevEpoch_beq]; unfold epochOf; rw [UInt64.toNat_div, UInt64.toNat_div]
+    simp only [e1, e2]
+    by_cases hs : slot > mx
+    · have : ¬ (slot.toNat ≤ mx.toNat) := by have := UInt64.lt_iff_toNat_lt.mp hs; omega
+      simp [hs, this]
+    · have : slot.toNat ≤ mx.toNat := by
+        have : ¬ mx.toNat < slot.toNat := fun hh => hs (UInt64.lt_iff_toNat_lt.mpr hh); omega
+      simp only [hs, if_false, this, decide_true, Bool.true_and]
+      by_cases h1 : slot.toNat / spe.toNat = mn.toNat / spe.toNat <;>
+      by_cases h2 : slot.toNat / spe.toNat + 1 = mn.toNat / spe.toNat <;>
+      by_cases h3 : slot.toNat / spe.toNat = mx.toNat / spe.toNat <;>
+      by_cases h4 : slot.toNat / spe.toNat + 1 = mx.toNat / spe.toNat <;> simp [h1, h2, h3, h4]
+
+theorem epochStartSlot_ok_val (spe e a : UInt64) (hspe : spe ≠ 0)
+    (h : EpochStartSlot (specOf spe) e = .ok a) : a.toNat = e.toNat * spe.toNat := by
+  have hov := (epochStartSlot_ok_iff spe e hspe).mp ⟨a, h⟩
+  have := epochStartSlotOr0_toNat spe e hspe hov
+  unfold epochStartSlotOr0 at this
+  rw [h] at this
+  exact this
+
+theorem att_walk_of_ok (i : AttIn) (a : UInt64) (hspe : i.spe ≠ 0)
+    (hfuel : (((i.blockRoot, i.blockSlot) :: i.ancestors).takeWhile
+      (fun e => decide (e.2.toNat > i.targetEpoch.toNat * i.spe.toNat))).length ≤ i.spe.toNat)
+    (h : EpochStartSlot (specOf i.spe) i.targetEpoch = .ok a) :
+    checkpointWalk a i.spe.toNat i.blockRoot i.blockSlot i.ancestors =
+      Spec.checkpointOf (i.targetEpoch.toNat * i.spe.toNat) ((i.blockRoot, i.blockSlot) :: i.ancestors) := by
+  have hts := epochStartSlot_ok_val _ _ _ hspe h
+  have := checkpointWalk_eq a i.spe.toNat i.blockRoot i.blockSlot i.ancestors (by rw [hts]; exact hfuel)
+  rw [hts] at this; exact this
+
+/-- assumptions on the answer record (`T` = start slot of the target epoch, `chain` = voted block and its ancestors):
+* `spe`    `SLOTS_PER_EPOCH ≠ 0`
+* `ckpt`   chain-view consistency: the checkpoint block of the vote is not reported as a non-ancestor of it
+* `fuel`   fewer than `SLOTS_PER_EPOCH` blocks lie between the target epoch's start and the voted block on its chain
+           (slots decrease along parent links and the vote is in the target epoch)
+* `forkOk` the `fork` of the specification is the fork of the clock's epoch under the node's `DENEB_FORK_EPOCH`
+* `bits`   SSZ: every set bit of a bitlist lies below its length
+* `cps`    `committees_per_slot * SLOTS_PER_EPOCH + index` fits 64 bits (`committees_per_slot ≤ 64`) -/
+structure WFAtt (fork : Spec.Fork) (i : AttIn) : Prop where
   spe : i.spe ≠ 0
-  ckpt : i.targetIsCkpt = true → i.targetSub = .yes
+  ckpt : Spec.checkpointOf (i.targetEpoch.toNat * i.spe.toNat) ((i.blockRoot, i.blockSlot) :: i.ancestors) = some i.targetRoot →
+    i.targetSub ≠ .no
+  fuel : (((i.blockRoot, i.blockSlot) :: i.ancestors).takeWhile
+    (fun e => decide (e.2.toNat > i.targetEpoch.toNat * i.spe.toNat))).length ≤ i.spe.toNat
+  forkOk : fork = .deneb ↔ i.denebEpoch.toNat ≤ i.maxSlot.toNat / i.spe.toNat
   bits : ∀ p ∈ i.setBits, p < i.bitLen
   cps : i.cps.toNat * i.spe.toNat + i.index.toNat < 2 ^ 64
 
@@ -260,96 +386,84 @@ theorem att_marks_only_on_accept (i : AttIn) :
   all_goals (try (have hfc := finCheck_some ‹finCheck _ _ _ _ _ = some _›; subst hfc))
   all_goals (simp_all [ign, rej, acc])
 
-theorem att_timing_failures_ignore (i : AttIn) (h : WFAtt i) :
-    allHold (Spec.attConds .phase0 i) = false → onlyTimingFails (Spec.attConds .phase0 i) = true →
-    (validateAttestation i).verdict = .IGNORE := by
-  have hwin := slotSpanOk_iff i.minSlot i.maxSlot i.slot ATTESTATION_PROPAGATION_SLOT_RANGE
-  have h32 : ATTESTATION_PROPAGATION_SLOT_RANGE.toNat = 32 := by decide
-  rw [h32] at hwin
-  obtain ⟨hspe, hck, hbits, hcps⟩ := h
+theorem att_accept_iff_all_conditions (fork : Spec.Fork) (i : AttIn) (h : WFAtt fork i) :
+    (validateAttestation i).verdict = .ACCEPT ↔ allHold (Spec.attConds fork i) = true := by
+  obtain ⟨hspe, hck, hfuel, hfork, hbits, hcps⟩ := h
+  have hwin := attSlotOk_eq_spec fork i.spe i.denebEpoch i.minSlot i.maxSlot i.slot hfork
   have hess := epochStartSlot_ok_iff i.spe i.targetEpoch hspe
   have hsub : i.index.toNat < i.cps.toNat → _ := fun hi => subnet_eq_spec i.spe i.cps i.slot i.index hspe hi hcps
   have hone : i.setBits.length = 1 → ∃ p, i.setBits = [p] := List.length_eq_one_iff.mp
   have hslot := i.slot.toNat_lt
   have hdm := Nat.div_mul_le_self i.slot.toNat i.spe.toNat
   fun_cases validateAttestation i
-  all_goals (try (have hfc := finCheck_some ‹finCheck _ _ _ _ _ = some _›; subst hfc))
-  all_goals (try (have hfn := (finCheck_none_iff _ _ _ _ _).mp ‹finCheck _ _ _ _ _ = none›))
-  all_goals (try simp only [Spec.attConds, Spec.attWindow] at *)
-  all_goals (try gossip_norm)
-  all_goals (first | (simp_all; done) | (simp_all; omega) | (rcases hfn with hfn | hfn <;> simp_all <;> omega) | skip)
-  -- remaining: `EpochStartSlot` overflowed, so the target epoch cannot be the epoch of the slot
-  all_goals (
-    have hov : ¬ (i.targetEpoch.toNat * i.spe.toNat < 2 ^ 64) := by
-      intro hlt; obtain ⟨s, hs⟩ := hess.mpr hlt
-      exact ‹∀ a : UInt64, EpochStartSlot (specOf i.spe) i.targetEpoch = Res.ok a → False› s hs
-    intro _ ht
-    simp_all
-    omega)
-
-/-- FULL STATEMENT (false for the current code, see `att_accepts_non_checkpoint_target`):
-`(validateAttestation i).verdict = .ACCEPT ↔ allHold (Spec.attConds .phase0 i)` for every well-formed `i`.
-PROVED: the same under the extra hypothesis `hckpt` — whenever the target root is an ancestor of the voted
-block it is the *checkpoint* block of the target epoch. Missing: `gossipval` only asks
-`InSubtree(target.root, beacon_block_root)` (known finding `target-not-checkpoint`). -/
-theorem att_accept_iff_all_conditions_partial (i : AttIn) (h : WFAtt i)
-    (hckpt : i.targetSub = .yes → i.targetIsCkpt = true) :
-    (validateAttestation i).verdict = .ACCEPT ↔ allHold (Spec.attConds .phase0 i) = true := by
-  have hwin := slotSpanOk_iff i.minSlot i.maxSlot i.slot ATTESTATION_PROPAGATION_SLOT_RANGE
-  have h32 : ATTESTATION_PROPAGATION_SLOT_RANGE.toNat = 32 := by decide
-  rw [h32] at hwin
-  obtain ⟨hspe, hck, hbits, hcps⟩ := h
-  have hess := epochStartSlot_ok_iff i.spe i.targetEpoch hspe
-  have hsub : i.index.toNat < i.cps.toNat → _ := fun hi => subnet_eq_spec i.spe i.cps i.slot i.index hspe hi hcps
-  have hone : i.setBits.length = 1 → ∃ p, i.setBits = [p] := List.length_eq_one_iff.mp
-  have hslot := i.slot.toNat_lt
-  have hdm := Nat.div_mul_le_self i.slot.toNat i.spe.toNat
-  fun_cases validateAttestation i
+  all_goals (try (have hwalk := att_walk_of_ok i _ hspe hfuel ‹EpochStartSlot _ _ = Res.ok _›))
+  all_goals (try simp only [hwalk] at *)
   all_goals (try (have hfs := finCheck_some_cond ‹finCheck _ _ _ _ _ = some _›))
   all_goals (try (have hfc := finCheck_some ‹finCheck _ _ _ _ _ = some _›; subst hfc))
   all_goals (try (have hfn := (finCheck_none_iff _ _ _ _ _).mp ‹finCheck _ _ _ _ _ = none›))
-  all_goals (try simp only [Spec.attConds, Spec.attWindow] at *)
+  all_goals (try simp only [Spec.attConds, Spec.targetIsCheckpoint] at *)
   all_goals (try gossip_norm)
   all_goals (first | (simp_all; done) | (simp_all; omega) | (rcases hfn with hfn | hfn <;> simp_all <;> omega) | skip)
   all_goals (simp_all)
   all_goals (intros; first | omega | (simp_all; omega) | (cases hb : i.blockIsFin <;> simp_all [finCheck, UInt64.lt_iff_toNat_lt] <;> omega))
 
-theorem att_violated_never_accept_partial (i : AttIn) (h : WFAtt i)
-    (hckpt : i.targetSub = .yes → i.targetIsCkpt = true) (c : Cond) (hc : c ∈ Spec.attConds .phase0 i)
-    (hv : c.holds = false) : (validateAttestation i).verdict ≠ .ACCEPT :=
-  never_accept_of_iff (att_accept_iff_all_conditions_partial i h hckpt) hc hv
+theorem att_violated_never_accept (fork : Spec.Fork) (i : AttIn) (h : WFAtt fork i) (c : Cond)
+    (hc : c ∈ Spec.attConds fork i) (hv : c.holds = false) : (validateAttestation i).verdict ≠ .ACCEPT :=
+  never_accept_of_iff (att_accept_iff_all_conditions fork i h) hc hv
 
-/-- an honest attestation on a consistent view (non-vacuity of `WFAtt` and of `hckpt`) -/
+theorem att_timing_failures_ignore (fork : Spec.Fork) (i : AttIn) (h : WFAtt fork i) :
+    allHold (Spec.attConds fork i) = false → onlyTimingFails (Spec.attConds fork i) = true →
+    (validateAttestation i).verdict = .IGNORE := by
+  obtain ⟨hspe, hck, hfuel, hfork, hbits, hcps⟩ := h
+  have hwin := attSlotOk_eq_spec fork i.spe i.denebEpoch i.minSlot i.maxSlot i.slot hfork
+  have hess := epochStartSlot_ok_iff i.spe i.targetEpoch hspe
+  have hsub : i.index.toNat < i.cps.toNat → _ := fun hi => subnet_eq_spec i.spe i.cps i.slot i.index hspe hi hcps
+  have hone : i.setBits.length = 1 → ∃ p, i.setBits = [p] := List.length_eq_one_iff.mp
+  have hslot := i.slot.toNat_lt
+  have hdm := Nat.div_mul_le_self i.slot.toNat i.spe.toNat
+  fun_cases validateAttestation i
+  all_goals (try (have hwalk := att_walk_of_ok i _ hspe hfuel ‹EpochStartSlot _ _ = Res.ok _›))
+  all_goals (try simp only [hwalk] at *)
+  all_goals (try (have hfs := finCheck_some_cond ‹finCheck _ _ _ _ _ = some _›))
+  all_goals (try (have hfc := finCheck_some ‹finCheck _ _ _ _ _ = some _›; subst hfc))
+  all_goals (try (have hfn := (finCheck_none_iff _ _ _ _ _).mp ‹finCheck _ _ _ _ _ = none›))
+  all_goals (try simp only [Spec.attConds, Spec.targetIsCheckpoint] at *)
+  all_goals (try gossip_norm)
+  all_goals (first | (simp_all; done) | (simp_all; omega) | (rcases hfn with hfn | hfn <;> simp_all <;> omega) | skip)
+  all_goals (simp_all)
+  all_goals (intros; first | omega | (simp_all; omega) | (cases hb : i.blockIsFin <;> simp_all [finCheck, UInt64.lt_iff_toNat_lt] <;> omega))
+
+/-- an honest attestation on a consistent view (non-vacuity of `WFAtt`) -/
 def attOk : AttIn :=
   { spe := 8, slot := 26, index := 1, targetEpoch := 3, bitLen := 4, setBits := [2], subnet := 5, blockIsFin := false,
     minSlot := 26, maxSlot := 26, bad := false, blockKnown := true, blockSlot := 25, targetSub := .yes,
-    targetIsCkpt := true, finSub := .yes, finEpoch := 1, towards := true, epc := true, cps := 2,
+    blockRoot := 1, targetRoot := 3, ancestors := [(3, 24)], denebEpoch := 18446744073709551615,
+    finSub := .yes, finEpoch := 1, towards := true, epc := true, cps := 2,
     committee := [22, 4, 46, 43], seen := false, domainOk := true, sig := true }
-example : WFAtt attOk := ⟨by decide, by decide, by decide, by decide⟩
+example : WFAtt .phase0 attOk := ⟨by decide, by decide, by decide, by decide, by decide, by decide⟩
 example : (validateAttestation attOk).verdict = .ACCEPT ∧ allHold (Spec.attConds .phase0 attOk) = true := by decide
 
-/-- NEGATION of the full `accept_iff` / `violated_never_accept` for attestations, on a concrete well-formed
-record (replayed on the Go code by mode `c12`, lines with `tsub=yes tckpt=0`): the target root is an ancestor of the
-voted block but not the checkpoint block of the target epoch — the `[REJECT]` condition fails, the code ACCEPTs. -/
-theorem att_accepts_non_checkpoint_target :
-    ∃ i, WFAtt i ∧ (validateAttestation i).verdict = .ACCEPT ∧ allHold (Spec.attConds .phase0 i) = false :=
-  ⟨{ attOk with targetIsCkpt := false }, ⟨by decide, by decide, by decide, by decide⟩, by decide, by decide⟩
+/-- the defect repaired by `bd7a82d`: the target (root 3, slot 23) is an ancestor of the voted block, but block 7 at
+slot 24 is the checkpoint block of epoch 3 — the `[REJECT]` condition fails and the code now REJECTs (it ACCEPTed). -/
+def attOldTarget : AttIn := { attOk with ancestors := [(7, 24), (3, 23)] }
+example : WFAtt .phase0 attOldTarget := ⟨by decide, by decide, by decide, by decide, by decide, by decide⟩
+example : (validateAttestation attOldTarget).verdict = .REJECT ∧ allHold (Spec.attConds .phase0 attOldTarget) = false := by
+  decide
 
-/-- deneb (EIP-7045) changed the propagation window; `gossipval` implements the phase0 window only. On a
-`SLOTS_PER_EPOCH = 8` network an attestation 20 slots old is inside the phase0 window (ACCEPTed) but two epochs old,
-outside the deneb window (known finding `eip7045-window`). -/
-theorem att_deneb_window_differs :
-    ∃ i, WFAtt i ∧ (validateAttestation i).verdict = .ACCEPT ∧ allHold (Spec.attConds .deneb i) = false :=
-  ⟨{ attOk with minSlot := 46, maxSlot := 46 }, ⟨by decide, by decide, by decide, by decide⟩, by decide, by decide⟩
-
-/-- … and on a `SLOTS_PER_EPOCH = 32` network the deneb window is the wider one: an honest attestation of the
-previous epoch that is 40 slots old satisfies every deneb condition, the code IGNOREs it (replayed by mode `c12`
-on configuration `m`). -/
-theorem att_deneb_window_drops_honest :
-    ∃ i, WFAtt i ∧ (validateAttestation i).verdict = .IGNORE ∧ allHold (Spec.attConds .deneb i) = true :=
-  ⟨{ attOk with spe := 32, slot := 64, targetEpoch := 2, index := 0, cps := 1, subnet := 0, bitLen := 2,
-                setBits := [1], committee := [7, 9], blockSlot := 63, finEpoch := 0, minSlot := 104, maxSlot := 104 },
-    ⟨by decide, by decide, by decide, by decide⟩, by decide, by decide⟩
+/-- the defect repaired by `a3eed3e`, both directions. `SLOTS_PER_EPOCH = 8`: an attestation 20 slots old is two epochs
+old — inside the phase0 range, outside the deneb window; with `DENEB_FORK_EPOCH = 0` the code now IGNOREs it. -/
+def attDenebOld : AttIn := { attOk with minSlot := 46, maxSlot := 46, denebEpoch := 0 }
+example : WFAtt .deneb attDenebOld := ⟨by decide, by decide, by decide, by decide, by decide, by decide⟩
+example : (validateAttestation attDenebOld).verdict = .IGNORE ∧ allHold (Spec.attConds .deneb attDenebOld) = false := by decide
+/-- `SLOTS_PER_EPOCH = 32`: an honest attestation of the previous epoch that is 40 slots old satisfies every deneb
+condition; the code now ACCEPTs it (it IGNOREd it). -/
+def attDenebPrev : AttIn :=
+  { attOk with spe := 32, slot := 64, targetEpoch := 2, index := 0, cps := 1, subnet := 0, bitLen := 2, setBits := [1],
+               committee := [7, 9], blockSlot := 63, blockRoot := 1, targetRoot := 1, ancestors := [], finEpoch := 0,
+               minSlot := 104, maxSlot := 104, denebEpoch := 0 }
+example : WFAtt .deneb attDenebPrev := ⟨by decide, by decide, by decide, by decide, by decide, by decide⟩
+example : (validateAttestation attDenebPrev).verdict = .ACCEPT ∧ allHold (Spec.attConds .deneb attDenebPrev) = true := by
+  decide
 
 /-! ### beacon_aggregate_and_proof -/
 
@@ -365,19 +479,32 @@ theorem selCheck_cases (i : AggIn) :
     cases h4 : isAggregator (UInt64.ofNat i.committee.length) i.selProof <;> cases h5 : i.selDecodes <;>
     cases h6 : i.selSig <;> simp_all [UInt64.lt_iff_toNat_lt]
 
-/-- assumptions on the answer record:
-* `ckpt`, `known`  chain-view consistency: the checkpoint block of the vote is an ancestor of it; an unknown block
-                   has unknown ancestry (this is how the validator learns "block seen")
-* `members`        committee members are validators of the registry
-* `decodes`        oracle consistency: a valid signature is a decodable one
-* `len`            the committee length fits 64 bits -/
-structure WFAgg (i : AggIn) : Prop where
+/-- assumptions on the answer record: as `WFAtt` (`ckpt`, `fuel`, `forkOk`), and
+* `tslot`    the target epoch's start slot is representable
+* `members`  committee members are validators of the registry
+* `decodes`  oracle consistency: a valid signature is a decodable one
+* `len`      the committee length fits 64 bits -/
+structure WFAgg (fork : Spec.Fork) (i : AggIn) : Prop where
   spe : i.spe ≠ 0
-  ckpt : i.targetIsCkpt = true → i.targetSub = .yes
-  known : i.blockKnown = false → i.targetSub = .unk
+  tslot : i.targetEpoch.toNat * i.spe.toNat < 2 ^ 64
+  ckpt : Spec.checkpointOf (i.targetEpoch.toNat * i.spe.toNat) ((i.blockRoot, i.blockSlot) :: i.ancestors) = some i.targetRoot →
+    i.targetSub ≠ .no
+  fuel : (((i.blockRoot, i.blockSlot) :: i.ancestors).takeWhile
+    (fun e => decide (e.2.toNat > i.targetEpoch.toNat * i.spe.toNat))).length ≤ i.spe.toNat
+  forkOk : fork = .deneb ↔ i.denebEpoch.toNat ≤ i.maxSlot.toNat / i.spe.toNat
   members : ∀ v ∈ i.committee, v.toNat < i.nVals.toNat
   decodes : i.selSig = true → i.selDecodes = true
   len : i.committee.length < 2 ^ 64
+
+theorem agg_walk (i : AggIn) (hspe : i.spe ≠ 0) (hov : i.targetEpoch.toNat * i.spe.toNat < 2 ^ 64)
+    (hfuel : (((i.blockRoot, i.blockSlot) :: i.ancestors).takeWhile
+      (fun e => decide (e.2.toNat > i.targetEpoch.toNat * i.spe.toNat))).length ≤ i.spe.toNat) :
+    checkpointWalk (epochStartSlotOr0 i.spe i.targetEpoch) i.spe.toNat i.blockRoot i.blockSlot i.ancestors =
+      Spec.checkpointOf (i.targetEpoch.toNat * i.spe.toNat) ((i.blockRoot, i.blockSlot) :: i.ancestors) := by
+  have hts := epochStartSlotOr0_toNat i.spe i.targetEpoch hspe hov
+  have := checkpointWalk_eq (epochStartSlotOr0 i.spe i.targetEpoch) i.spe.toNat i.blockRoot i.blockSlot i.ancestors
+    (by rw [hts]; exact hfuel)
+  rw [hts] at this; exact this
 
 theorem agg_marks_only_on_accept (i : AggIn) :
     (validateAggregate i).marks ≠ [] → (validateAggregate i).verdict = .ACCEPT := by
@@ -385,13 +512,13 @@ theorem agg_marks_only_on_accept (i : AggIn) :
   all_goals (try (have hfc := finCheck_some ‹finCheck _ _ _ _ _ = some _›; subst hfc))
   all_goals (simp_all [ign, rej, acc])
 
-theorem agg_timing_failures_ignore (i : AggIn) (h : WFAgg i) :
-    allHold (Spec.aggConds .phase0 i) = false → onlyTimingFails (Spec.aggConds .phase0 i) = true →
+set_option maxHeartbeats 1000000 in
+theorem agg_timing_failures_ignore (fork : Spec.Fork) (i : AggIn) (h : WFAgg fork i) :
+    allHold (Spec.aggConds fork i) = false → onlyTimingFails (Spec.aggConds fork i) = true →
     (validateAggregate i).verdict = .IGNORE := by
-  have hwin := slotSpanOk_iff i.minSlot i.maxSlot i.slot ATTESTATION_PROPAGATION_SLOT_RANGE
-  have h32 : ATTESTATION_PROPAGATION_SLOT_RANGE.toNat = 32 := by decide
-  rw [h32] at hwin
-  obtain ⟨hspe, hck, hknown, hmem, hdec, hlen⟩ := h
+  obtain ⟨hspe, hts, hck, hfuel, hfork, hmem, hdec, hlen⟩ := h
+  have hwin := attSlotOk_eq_spec fork i.spe i.denebEpoch i.minSlot i.maxSlot i.slot hfork
+  have hwalk := agg_walk i hspe hts hfuel
   have hsel := selCheck_cases i
   have hagg := isAggregator_eq_spec (UInt64.ofNat i.committee.length) i.selProof
   have hofn : (UInt64.ofNat i.committee.length).toNat = i.committee.length := by
@@ -400,24 +527,20 @@ theorem agg_timing_failures_ignore (i : AggIn) (h : WFAgg i) :
   have hmem' : i.committee.contains i.aggregator = true → i.aggregator.toNat < i.nVals.toNat := by
     intro hc; exact hmem _ (List.contains_iff_mem.mp hc)
   fun_cases validateAggregate i
+  all_goals (try simp only [hwalk] at *)
   all_goals (try (have hfs := finCheck_some_cond ‹finCheck _ _ _ _ _ = some _›))
   all_goals (try (have hfc := finCheck_some ‹finCheck _ _ _ _ _ = some _›; subst hfc))
   all_goals (try (have hfn := (finCheck_none_iff _ _ _ _ _).mp ‹finCheck _ _ _ _ _ = none›))
-  all_goals (try simp only [Spec.aggConds, Spec.attWindow] at *)
+  all_goals (try simp only [Spec.aggConds, Spec.targetIsCheckpoint] at *)
   all_goals (try gossip_norm)
-  all_goals (first | (simp_all; done) | (simp_all; omega) | (rcases hfn with hfn | hfn <;> simp_all <;> omega) | skip)
+  all_goals (first | (intros; rfl) | (simp_all; done) | (simp_all; omega) | (rcases hfn with hfn | hfn <;> simp_all <;> omega))
 
-set_option maxHeartbeats 400000 in
-/-- FULL STATEMENT (false for the current code, see `agg_accepts_non_checkpoint_target`):
-`(validateAggregate i).verdict = .ACCEPT ↔ allHold (Spec.aggConds .phase0 i)` for every well-formed `i`.
-PROVED: the same under `hckpt` (an ancestor target is the checkpoint block), as for attestations. -/
-theorem agg_accept_iff_all_conditions_partial (i : AggIn) (h : WFAgg i)
-    (hckpt : i.targetSub = .yes → i.targetIsCkpt = true) :
-    (validateAggregate i).verdict = .ACCEPT ↔ allHold (Spec.aggConds .phase0 i) = true := by
-  have hwin := slotSpanOk_iff i.minSlot i.maxSlot i.slot ATTESTATION_PROPAGATION_SLOT_RANGE
-  have h32 : ATTESTATION_PROPAGATION_SLOT_RANGE.toNat = 32 := by decide
-  rw [h32] at hwin
-  obtain ⟨hspe, hck, hknown, hmem, hdec, hlen⟩ := h
+set_option maxHeartbeats 1600000 in
+theorem agg_accept_iff_all_conditions (fork : Spec.Fork) (i : AggIn) (h : WFAgg fork i) :
+    (validateAggregate i).verdict = .ACCEPT ↔ allHold (Spec.aggConds fork i) = true := by
+  obtain ⟨hspe, hts, hck, hfuel, hfork, hmem, hdec, hlen⟩ := h
+  have hwin := attSlotOk_eq_spec fork i.spe i.denebEpoch i.minSlot i.maxSlot i.slot hfork
+  have hwalk := agg_walk i hspe hts hfuel
   have hsel := selCheck_cases i
   have hagg := isAggregator_eq_spec (UInt64.ofNat i.committee.length) i.selProof
   have hofn : (UInt64.ofNat i.committee.length).toNat = i.committee.length := by
@@ -427,45 +550,42 @@ theorem agg_accept_iff_all_conditions_partial (i : AggIn) (h : WFAgg i)
     intro hc; exact hmem _ (List.contains_iff_mem.mp hc)
   have hpos : ¬ i.setBits = [] → 1 ≤ i.setBits.length := fun h => List.length_pos_iff.mpr h
   fun_cases validateAggregate i
+  all_goals (try simp only [hwalk] at *)
   all_goals (try (have hfs := finCheck_some_cond ‹finCheck _ _ _ _ _ = some _›))
   all_goals (try (have hfc := finCheck_some ‹finCheck _ _ _ _ _ = some _›; subst hfc))
   all_goals (try (have hfn := (finCheck_none_iff _ _ _ _ _).mp ‹finCheck _ _ _ _ _ = none›))
-  all_goals (try simp only [Spec.aggConds, Spec.attWindow] at *)
+  all_goals (try simp only [Spec.aggConds, Spec.targetIsCheckpoint] at *)
   all_goals (try gossip_norm)
   case case1 =>
-    have hw : ¬ (i.slot.toNat + 32 < 2 ^ 64 ∧ i.minSlot.toNat ≤ i.slot.toNat + 32 ∧ i.slot.toNat ≤ i.maxSlot.toNat) := by
-      rw [← hwin]; simpa using ‹(!slotSpanOk i.minSlot i.maxSlot i.slot ATTESTATION_PROPAGATION_SLOT_RANGE) = true›
+    have hw : Spec.attWindow fork i.spe.toNat i.slot.toNat i.minSlot.toNat i.maxSlot.toNat = false := by
+      rw [← hwin]; simpa using ‹(!attSlotOk i.spe i.denebEpoch i.minSlot i.maxSlot i.slot) = true›
     refine ⟨fun h => Verdict.noConfusion h, fun hall => ?_⟩
-    simp only [Bool.and_eq_true, decide_eq_true_eq] at hall
-    exact absurd ⟨hall.1.2.2, hall.1.1, hall.1.2.1⟩ hw
-  case case19 =>
-    refine ⟨fun _ => ?_, fun _ => trivial⟩
-    rcases hfn with hfn | hfn <;> simp_all
-  all_goals (first | (simp_all; done) | (simp_all; omega)
-                   | (cases hb : i.blockIsFin <;> simp_all [finCheck, UInt64.lt_iff_toNat_lt] <;> (first | omega | (intros; have hm := hmem _ ‹i.aggregator ∈ i.committee›; simp_all))))
+    simp only [Bool.and_eq_true] at hall
+    rw [hw] at hall; exact Bool.noConfusion hall.1
+  all_goals (first | (simp_all; done) | (simp_all; omega) | (rcases hfn with hfn | hfn <;> simp_all <;> omega) | skip)
+  all_goals (cases hb : i.blockIsFin <;> simp_all [finCheck, UInt64.lt_iff_toNat_lt] <;>
+    (first | omega | (intros; have hm := hmem _ ‹i.aggregator ∈ i.committee›; simp_all)))
 
-theorem agg_violated_never_accept_partial (i : AggIn) (h : WFAgg i)
-    (hckpt : i.targetSub = .yes → i.targetIsCkpt = true) (c : Cond) (hc : c ∈ Spec.aggConds .phase0 i)
-    (hv : c.holds = false) : (validateAggregate i).verdict ≠ .ACCEPT :=
-  never_accept_of_iff (agg_accept_iff_all_conditions_partial i h hckpt) hc hv
+theorem agg_violated_never_accept (fork : Spec.Fork) (i : AggIn) (h : WFAgg fork i) (c : Cond)
+    (hc : c ∈ Spec.aggConds fork i) (hv : c.holds = false) : (validateAggregate i).verdict ≠ .ACCEPT :=
+  never_accept_of_iff (agg_accept_iff_all_conditions fork i h) hc hv
 
 /-- an honest aggregate-and-proof (values of an op line of mode `c12`): non-vacuity of `WFAgg` -/
 def aggOk : AggIn :=
   { spe := 8, slot := 27, index := 0, targetEpoch := 3, aggregator := 9, bitLen := 4, setBits := [0, 2],
     blockIsFin := false, minSlot := 27, maxSlot := 27, seenAggregator := false, seenAggregate := false,
-    aggRoot := "859e", bad := false, blockKnown := true, targetSub := .yes, targetIsCkpt := true, finSub := .yes,
+    aggRoot := "859e", bad := false, blockKnown := true, blockSlot := 26, targetSub := .yes, blockRoot := 1,
+    targetRoot := 3, ancestors := [(3, 24)], denebEpoch := 18446744073709551615, finSub := .yes,
     finEpoch := 1, towards := true, epc := true, stateOk := true, nVals := 64, commOk := true,
     committee := [9, 57, 25, 63], selProof := ByteArray.mk (Array.replicate 96 7), selDecodes := true, selSig := true,
     outerSig := true, outerSigTrunc := false, maxPerComm := 2048, aggSig := true }
-example : WFAgg aggOk := ⟨by decide, by decide, by decide, by decide, by decide, by decide⟩
+example : WFAgg .phase0 aggOk :=
+  ⟨by decide, by decide, by decide, by decide, by decide, by decide, by decide, by decide⟩
 example : (validateAggregate aggOk).verdict = .ACCEPT := by decide +kernel
 /-- before repair `aa93b5d` the code consulted `outerSigTrunc`: this honest record was REJECTed -/
 example : aggOk.outerSig = true ∧ aggOk.outerSigTrunc = false := by decide
-
-theorem agg_accepts_non_checkpoint_target :
-    ∃ i, WFAgg i ∧ (validateAggregate i).verdict = .ACCEPT ∧ allHold (Spec.aggConds .phase0 i) = false :=
-  ⟨{ aggOk with targetIsCkpt := false }, ⟨by decide, by decide, by decide, by decide, by decide, by decide⟩,
-    by decide +kernel, by decide +kernel⟩
+/-- repair `bd7a82d` for aggregates: an older-ancestor target is REJECTed -/
+example : (validateAggregate { aggOk with ancestors := [(7, 24), (3, 23)] }).verdict = .REJECT := by decide +kernel
 
 /-! ### voluntary_exit -/
 
